@@ -2,6 +2,7 @@ import Mqtt5V.Basic
 import Mqtt5V.Model.ReasonCode
 import Mqtt5V.Model.PidAlloc
 import Mqtt5V.Model.Mutex
+import Mqtt5V.Model.SerialOrder
 /-! `mdrv`: the model behind a one-line-in / one-line-out protocol (DESIGN.md Appendix B).
 Imports Model/Spec/Gen only (no Mathlib, so it links as a native executable). -/
 open Mqtt5V
@@ -11,8 +12,38 @@ namespace Driver
 def words (line : String) : List String :=
   (line.trimAscii.toString.splitOn " ").filter (· ≠ "")
 
+def parseReq (tag : Nat) (tok : String) : Option Model.SerialOrder.Req :=
+  match tok.splitOn ":" with
+  | [p, s] => do
+    let p ← p.toNat?
+    let s ← s.toNat?
+    pure ⟨tag, p != 0, s⟩
+  | _ => none
+
+def parseReqs : Nat → List String → Option (List Model.SerialOrder.Req)
+  | _, [] => some []
+  | n, t :: ts => do
+    let r ← parseReq n t
+    let rs ← parseReqs (n + 1) ts
+    pure (r :: rs)
+
 def pureStep (ws : List String) : String :=
   match ws with
+  | ["ord", "lt", p1, s1, p2, s2] =>
+    match p1.toNat?, s1.toNat?, p2.toNat?, s2.toNat? with
+    | some p1, some s1, some p2, some s2 =>
+      if Model.SerialOrder.lt ⟨0, p1 != 0, s1⟩ ⟨1, p2 != 0, s2⟩ then "1" else "0"
+    | _, _, _, _ => "bad-op"
+  | "ord" :: "sort" :: toks =>
+    match parseReqs 0 toks with
+    | some q =>
+      let r := Model.SerialOrder.sortQueue q
+      if r.isEmpty then "-" else String.intercalate " " (r.map fun x => toString x.tag)
+    | none => "bad-op"
+  | ["ord", "next", s] =>
+    match s.toNat? with
+    | some s => toString (Model.SerialOrder.nextSerial s)
+    | none => "bad-op"
   | ["rc", cat, b] =>
     match Category.ofString? cat, b.toNat? with
     | some c, some n => (Model.ReasonCode.toReasonCode c n).render
